@@ -78,12 +78,19 @@ def l1d_case(arg):
         res["fail"] = (cl, f"[{lossn}, {fk}, cx={cx!r}, cy={cy!r}] step {res['steps']}: {det}")
         return res
 
-    for _ in range(rng.choice([15, 30, 45])):
+    deep = rng.random() < 0.3   # deep refinement at one spot: sequential ask(1..2)/tell, 60-90 steps (x-precision cut-offs)
+    if deep and fk not in ("step", "peak"):
+        fk = res["fn"] = "step"
+        g = base_fn(fk, 1.0, rng.uniform(-1, 1))
+    res["deep"] = deep
+    for _ in range(rng.choice([60, 75, 90]) if deep else rng.choice([15, 30, 45])):
         res["steps"] += 1
-        r = rng.random()
+        r = rng.random() * (0.8 if deep else 1.0)
+        if deep and out:
+            r = 0.6
         if r < 0.45:
-            n = rng.choice([1, 1, 2, 3, 5])
-            commit = rng.random() < 0.8
+            n = rng.choice([1, 1, 2]) if deep else rng.choice([1, 1, 2, 3, 5])
+            commit = True if deep else rng.random() < 0.8
             pa, ia = a.ask(n, tell_pending=commit)
             pb, ib = b.ask(n, tell_pending=commit)
             same = eq([cx * x for x in pa], pb) if pow2 else eq_close([cx * x for x in pa], pb, 1e-9, 1e-9 * cx * (hi - lo))
